@@ -56,7 +56,7 @@ class DataEncoding(common.AttrComparable, common.XmlObject, metaclass=ABCMeta):
         """
         if (context_calibrators_elements := data_encoding_element.find('ContextCalibratorList')) is not None:
             return [calibrators.ContextCalibrator.from_xml(el)
-                    for el in context_calibrators_elements]
+                    for el in context_calibrators_elements.iterfind('*')]
         return None
 
     @staticmethod
